@@ -2,7 +2,7 @@
    well-formedness check for list-given trees, the non-vacuity example and the
    witnesses of the three refuted statements (all by vm_compute). *)
 From Coq Require Import List NArith Bool Lia.
-From GV Require Import Lib.Tactics Chain.Tree Chain.Canonical Chain.LookupCache Chain.CanonicalProofs Chain.CanonicalInv Chain.CanonicalTop Chain.CanonicalIndex Chain.CanonicalEvents.
+From GV Require Import Lib.Tactics Chain.Tree Chain.Canonical Chain.LookupCache Chain.CanonicalProofs Chain.CanonicalInv Chain.CanonicalTop Chain.CanonicalIndex Chain.CanonicalEvents Chain.CanonicalOps.
 Import ListNotations.
 Local Open Scope N_scope.
 
@@ -188,3 +188,8 @@ Lemma set_head_no_removed_logs_refuted :
   exists st' evs, step WT wfuel st (OSetHead 1) = (st', evs, None) /\
                   canon st' 2 = None /\ removed_logs evs = [] /\ head_evs evs = [1].
 Proof. split; [vm_compute; reflexivity|]. eexists. eexists. split; [vm_compute; reflexivity|]. repeat split; reflexivity. Qed.
+
+(* the hypotheses of the per-operation event theorems are met: a three-block InsertChain on the
+   genesis executes every block at its turn *)
+Lemma fresh_segment_ok : exists l, resolve_all WT [1;2;3] = Some l /\ all_fresh WT wfuel genesis_db true l.
+Proof. eexists. split; [vm_compute; reflexivity|]. vm_compute. repeat split; reflexivity. Qed.
